@@ -381,6 +381,25 @@ fn adversarial(thorough: bool) -> Vec<Value> {
             }
         }
     }
+    // --- not-a-number and infinities (plain YAML scalars `nan`, `.nan`, `inf`, `.inf`, `-.inf`; parse_float of such strings)
+    //     against every comparison and type check
+    for spell in ["nan", "NaN", ".nan", ".NaN", "inf", "-inf", ".inf", "-.inf", "Infinity", "+.inf"] {
+        let d = format!("a: {}\nb: [{}, 1.5]\nc: \"{}\"\nd: 1.5\n", spell, spell, spell);
+        let mut rules = String::new();
+        for (k, op) in ["==", "!=", "<", "<=", ">", ">=", "in", "not in"].iter().enumerate() {
+            let rhs = if op.ends_with("in") { "[1.5, 2.5]" } else { "1.5" };
+            rules.push_str(&format!("rule l{k} {{ a {op} {rhs} }}\nrule q{k} {{ a {op} d }}\nrule s{k} {{ a {op} a }}\nrule m{k} {{ b[*] {op} {rhs} }}\nrule f{k} {{ let x = parse_float(c)\n %x {op} {rhs} }}\nrule r{k} {{ d {op} r(1.0, 2.0) }}\n", k = k, op = op, rhs = rhs));
+        }
+        rules.push_str("rule t1 { a is_float }\nrule t2 { a is_string }\nrule t3 { a in r[0.0, 9.0] }\nrule t4 { let y = parse_int(a)\n %y exists }\nrule t5 { let z = parse_string(a)\n %z exists }\n");
+        out.push(cli_case(&["validate", "-r", "@r.guard", "-d", "@d.yaml"], json!({"r.guard": rules, "d.yaml": d}), "", "nan-inf"));
+        out.push(cli_case(&["validate", "-r", "@r.guard", "-d", "@d.yaml", "--structured", "-o", "json", "-S", "none"], json!({"r.guard": rules, "d.yaml": d}), "", "nan-inf"));
+        out.push(lib_case(&rules, &d, "nan-inf"));
+        for one in rules.split("rule ").filter(|x| !x.trim().is_empty()) {
+            out.push(lib_case(&format!("rule {}", one), &d, "nan-inf"));
+        }
+        let t = format!("- input:\n    a: {}\n    b: [{}, 1.5]\n    c: \"{}\"\n    d: 1.5\n  expectations:\n    rules:\n      t1: PASS\n", spell, spell, spell);
+        out.push(cli_case(&["test", "-r", "@r.guard", "-t", "@t.yaml"], json!({"r.guard": rules, "t.yaml": t}), "", "nan-inf"));
+    }
     // --- parameterised rules called with every arity 0..3 against declarations of arity 1..2, odd arguments
     for decl in ["rule p(x) { %x exists }", "rule p(x, y) { %x == %y }", "rule p(x) { a == %x\n %x !empty }"] {
         for call in ["p()", "p(a)", "p(a, 1)", "p(a, 1, \"s\")", "p(nosuch)", "p(a[ zz exists ])", "p(count(a))", "p(p)", "p(%u)", "q(a)", "not p(a, b, c, d)"] {
